@@ -806,7 +806,8 @@ def check_history(ad, case, ctx):
 
 sel = st.integers(0, 30)
 idx = st.integers(0, 7)
-LAYERS = ["L1", "l2", "A", "z"]
+# "10" is also a node label of the string universe; "" is a (falsy) string
+LAYERS = ["L1", "l2", "10", "z", ""]
 
 
 def edge_spec(modes=("existing", "fresh"), t_strategy=None):
@@ -816,7 +817,7 @@ def edge_spec(modes=("existing", "fresh"), t_strategy=None):
         "pick": sel, "perm": sel,
         "cut": st.integers(0, 7),          # directed: where the node list splits
         "t": t_strategy or st.integers(0, 12),   # temporal
-        "layer": st.integers(0, 3),        # multiplex
+        "layer": st.integers(0, 4),        # multiplex
     })
 
 
